@@ -15,6 +15,11 @@ func init() { All["C03"] = checkC03 }
 
 // tsSources renders the provenance of a time.Time value as a set of tags.
 func tsSources(fn *ssa.Function, v ssa.Value, ref ssa.Value) []string {
+	return tsSourcesX(fn, v, ref, nil)
+}
+
+// tsSourcesX: as tsSources; calls (optional) receives every call found as a source.
+func tsSourcesX(fn *ssa.Function, v ssa.Value, ref ssa.Value, calls func(c *ssa.Call)) []string {
 	set := map[string]bool{}
 	seen := map[ssa.Value]bool{}
 	var rec func(v ssa.Value)
@@ -45,6 +50,9 @@ func tsSources(fn *ssa.Function, v ssa.Value, ref ssa.Value) []string {
 				return
 			}
 			set["call:"+ana.Short(n)] = true
+			if calls != nil {
+				calls(x)
+			}
 			return
 		}
 		if u := ana.UniqueReaching(fn, v); u != nil && u != v {
@@ -213,6 +221,104 @@ func c03Client(p *ana.Prog, r *ana.Result, name string, scion bool) {
 		}
 	}
 	r.Table(fname, table)
+	// what is reported comes from this exchange: every return that can carry a nil error returns, as
+	// offset, ClockOffset(t0..t3) of the validated timestamps or the filter's output for them
+	{
+		rets := ana.ClassifyReturns(fn)
+		okAll, n := true, 0
+		for _, ri := range rets {
+			if ri.Class == "failure" {
+				continue
+			}
+			if len(ri.Ret.Results) != 3 {
+				continue
+			}
+			n++
+			seen := map[ssa.Value]bool{}
+			var good func(v ssa.Value) bool
+			good = func(v ssa.Value) bool {
+				if seen[v] {
+					return true
+				}
+				seen[v] = true
+				if ph, ok := v.(*ssa.Phi); ok {
+					for _, e := range ph.Edges {
+						if !good(e) {
+							return false
+						}
+					}
+					return true
+				}
+				if ld, ok := v.(*ssa.UnOp); ok && ld.Op == token.MUL {
+					// named result kept in memory (deferred calls): the values stored that reach the return
+					if a, ok := ld.X.(*ssa.Alloc); ok {
+						vals := ana.ReachingStores(fn, a)(ld)
+						if len(vals) == 0 {
+							return false
+						}
+						for _, x := range vals {
+							if x == ana.Unknown || !good(x) {
+								return false
+							}
+						}
+						return true
+					}
+				}
+				if u := ana.UniqueReaching(fn, v); u != nil && u != v {
+					return good(u)
+				}
+				if v == co[0].Value() {
+					return true
+				}
+				if c, _ := ana.CallOf(v); c != nil && len(fd) == 1 && c == fd[0] {
+					return true
+				}
+				return false
+			}
+			if !good(ri.Ret.Results[1]) {
+				okAll = false
+				r.Violate("C03.table", fname, "reported-offset-is-this-exchange's", posOf(p, ri.Ret), "a return that can carry a nil error reports an offset that is not ClockOffset(t0, t1, t2, t3) of this exchange (or the filter's output for it): "+ana.ValueString(ri.Ret.Results[1]))
+			}
+		}
+		if okAll && n > 0 {
+			r.Ok("C03.table", fname, "reported-offset-is-this-exchange's", posOf(p, co[0]), fmt.Sprintf("all %d returns that can carry a nil error report ClockOffset(t0..t3) or Filter.Do(..., that offset) of the validated timestamps", n))
+		} else if n == 0 {
+			r.Violate("C03.table", fname, "reported-offset-is-this-exchange's", p.Pos(fn.Pos()), "UNDECIDED: no success return found")
+		}
+	}
+	// a clock reading that stands in for a kernel timestamp is taken after the event it stamps:
+	// after this request's send (t0), after this datagram's read (t3)
+	for _, chk := range []struct {
+		slot  string
+		v     ssa.Value
+		after ssa.Instruction
+		what  string
+	}{
+		{"basic.t0", basic.v[0], func() ssa.Instruction {
+			if len(writes) == 1 {
+				return writes[0].(ssa.Instruction)
+			}
+			return nil
+		}(), "this request's send"},
+		{"basic.t3", basic.v[3], rd, "the read of this datagram"},
+	} {
+		if chk.after == nil {
+			continue
+		}
+		var nows []*ssa.Call
+		tsSourcesX(fn, chk.v, ref, func(c *ssa.Call) {
+			if ana.CalleeName(&c.Call) == ana.Q("core/timebase.Now") {
+				nows = append(nows, c)
+			}
+		})
+		for _, c := range nows {
+			if ana.InstrDominates(chk.after, c) {
+				r.Ok("C03.table", fname, "clock-fallback-after-event:"+chk.slot, posOf(p, c), "the clock reading used when no kernel timestamp is available is taken after "+chk.what)
+			} else {
+				r.Violate("C03.table", fname, "clock-fallback-after-event:"+chk.slot, posOf(p, c), "the clock reading that replaces a missing kernel timestamp in "+chk.slot+" is not taken after "+chk.what+": it does not stamp this exchange's event (the round-trip delay shrinks or turns negative and the offset is off by half the wait)")
+			}
+		}
+	}
 	// basic t0 / t3 belong to this exchange: ReadTXTimestamp after the write of this call, TimestampFromOOBData on the oob of this read
 	for _, c := range ana.CallsIn(fn, ana.Q("net/udp.ReadTXTimestamp")) {
 		if len(writes) == 1 && writes[0].Block().Dominates(c.Block()) {
